@@ -61,6 +61,11 @@ def can_produce(t, creator, p, spmc_owner):
 
 @st.composite
 def cases(draw, ctx):
+    if ctx.get("variant") == "resumerace":
+        # suspended ULTs resumed from other threads while their stream is being joined
+        # (gen/c11.py, race): the resumed unit must still run before the join returns
+        from gen import c11
+        return draw(c11.race(ctx)) + "note c01-resumerace\n"
     if ctx.get("variant") == "xsjoin":
         # "... or before ABT_xstream_join/free of the only stream serving its pool returns":
         # the unjoined-unit programs of gen/c06.py (units blocked / being resumed by other
@@ -244,6 +249,8 @@ def classify(text, res, ctx):
 
 
 def nontrivial(text, res, ctx):
+    if "note c01-resumerace" in text:
+        return stat(res, "resumes") >= 1 and "xs" in text.split("main :")[-1]
     if "note c01-xsjoin" in text:
         return stat(res, "xsjoin_with_pending_units") >= 1
     import re
@@ -254,7 +261,9 @@ def nontrivial(text, res, ctx):
 
 PLAN = {
     "quick": [("coarse", 6, 250), ("fine", 3, 200), ("san", 3, 80), ("native", 2, 150),
-              ("coarse", 4, 250, "xsjoin"), ("native", 1, 150, "xsjoin")],
+              ("coarse", 3, 250, "xsjoin"), ("native", 1, 150, "xsjoin"),
+              ("coarse", 3, 300, "resumerace")],
     "thorough": [("coarse", 6, 5000), ("fine", 6, 3000), ("san", 2, 1500), ("nopool", 1, 1000),
-                 ("native", 1, 2500), ("coarse", 3, 5000, "xsjoin"), ("fine", 2, 3000, "xsjoin")],
+                 ("native", 1, 2500), ("coarse", 3, 5000, "xsjoin"), ("fine", 2, 3000, "xsjoin"),
+                 ("coarse", 3, 5000, "resumerace")],
 }
